@@ -266,8 +266,15 @@ def gen_world(r, with_big=True):
     return spec_of(dirs, files), spec_of(sorted(ddirs), dfiles)
 
 
-def gen_flags(r, allow_delete=True):
-    fl = {"j": 1}
+def norm_events(line):
+    """order-insensitive form of an observation / model line (runs with several workers finish tasks in any order)"""
+    kv = dict(x.split("=", 1) for x in line.split(" "))
+    kv["evs"] = ",".join(sorted(kv.get("evs", "-").split(",")))
+    return " ".join("%s=%s" % (k, kv[k]) for k in ("refused", "exit", "nerr", "evs", "dst"))
+
+
+def gen_flags(r, allow_delete=True, jobs=False):
+    fl = {"j": r.choice([1, 1, 4, 8]) if jobs else 1}
     m = r.choice(["default", "default", "default", "it", "so", "ck"])
     if m != "default":
         fl[m] = 1
